@@ -31,6 +31,82 @@ def run(ctx, res):
     verbatim_lines(ctx, res, "C16.R5")
     marker_tab_counts(ctx, res, "C16.R6")
     line_map_rule(ctx, res, "C16.R7")
+    frame(ctx, res, "C16.R8")
+
+
+def frame(ctx, res, rule):
+    """`framed by a _start marker .. and an ‾end marker`: the text appended to the item, in order, is
+    padding* `_start` line-break  code-block  padding* `‾end` (colour strings, which are empty or SGR codes by R2, aside).
+    Decides the presence and order of the frame's pieces, not the width of the padding."""
+    P = ctx.lib
+    b = P.fn("list::build_pretty_string_item")
+    fn = fshort(b)
+    loc = T.loc(b["tree"])
+    blk = T.peel(b["tree"])
+    while blk.get("k") == "blockexpr":
+        blk = blk["block"]
+    rid = T.local_of(T.peel(blk["tail"])) if blk.get("tail") is not None else None
+    if rid is None:
+        res.cannot(rule, fn, "frame", "the item is not returned as a local string that the pieces are appended to", loc)
+        return
+    # aliases: `let out = &mut result` (a re-inlined helper's parameter)
+    alias = {rid}
+    for s_ in T.nodes(b["tree"], "let"):
+        if s_["pat"].get("p") == "bind" and s_.get("init") is not None and T.local_of(T.peel_ref(s_["init"])) in alias:
+            alias.add(s_["pat"]["id"])
+    colour_ids = set()
+    for s_ in T.nodes(b["tree"], "let"):
+        i_ = T.peel(s_["init"]) if s_.get("init") is not None else {}
+        if s_["pat"].get("p") == "tuple" and i_.get("k") == "if" and T.render(i_["cond"]) == "coloring":
+            colour_ids |= {q["id"] for q in s_["pat"]["pats"] if q.get("p") == "bind"}
+    pieces = []
+    for n, par in T.walk(b["tree"]):
+        if n.get("k") == "path" and T.local_of(n) in alias:
+            p_ = par[-1] if par else {}
+            i = len(par) - 1
+            while p_.get("k") == "addr_of" or (p_.get("k") == "unary" and p_.get("op") == "*"):
+                i -= 1
+                p_ = par[i]
+            if p_.get("k") == "let" or (n is T.peel(blk["tail"])):
+                continue
+            if p_.get("k") == "mcall" and T.peel_ref(p_["recv"]) is n and p_["name"] in ("push_str", "push") and len(p_["args"]) == 1:
+                arg = p_["args"][0]
+            elif p_.get("k") == "assign_op" and p_.get("op") in ("+", "+=") and T.peel_ref(p_["l"]) is n:
+                arg = p_["r"]
+            elif p_.get("k") == "mcall" and T.peel_ref(p_["recv"]) is n and p_["name"] in ("len", "capacity", "is_empty", "as_str"):
+                continue
+            else:
+                res.cannot(rule, fn, "frame-use:" + T.render(p_)[:60], "the item string is used through `%s`: the appended pieces cannot be listed" % T.render(p_)[:80], T.loc(n))
+                return
+            cond = [q.get("k") for q in par[:i] if q.get("k") in ("if", "match", "loop", "for", "closure")]
+            a = T.peel_ref(arg)
+            r = T.render(a)
+            v = T.lit_value(a)
+            if cond:
+                kind = "?(%s)" % cond[0]
+            elif v in ("\n",):
+                kind = "N"
+            elif v == "_start":
+                kind = "S"
+            elif v == "\u203eend":
+                kind = "E"
+            elif T.local_of(a) in colour_ids or v == "":
+                kind = "c"
+            elif a.get("k") == "mcall" and a["name"] == "repeat" and (T.lit_value(T.peel_ref(a["recv"])) in (" ", "    ") or
+                                                                       (T.peel_ref(a["recv"]).get("k") == "mcall" and T.peel_ref(a["recv"])["name"] in ("to_string", "to_owned") and
+                                                                        T.lit_value(T.peel_ref(T.peel_ref(a["recv"])["recv"])) in (" ", "    "))):
+                kind = "P"
+            elif a.get("k") == "mcall" and a["name"] == "replace" and "code_block" in r:
+                kind = "B"
+            else:
+                kind = "?(%s)" % r[:40]
+            pieces.append(kind)
+    seq = "".join(k for k in pieces if k != "c") if all(len(k) == 1 for k in pieces) else " ".join(pieces)
+    if re.match(r"^P*SNBP*E$", seq):
+        res.holds(rule, fn, "frame", "appended pieces: %s" % " ".join(pieces))
+    else:
+        res.add(Finding(rule, fn, "frame", "the pieces appended to a list item are [%s] (P padding, c colour, S `_start`, N line break, B code block, E `\u203eend`); "
+                        "the property requires padding* `_start` line-break code-block padding* `\u203eend`" % " ".join(pieces), loc=loc))
 
 
 def marker_tab_counts(ctx, res, rule):
@@ -255,6 +331,9 @@ TEXT_TRANSFORMS = {"trim", "trim_end", "trim_start", "trim_matches", "trim_end_m
                    "chars", "char_indices", "bytes", "truncate", "pop", "remove", "retain", "drain", "rev"}
 
 
+LINE_SPLITTERS = {"split", "rsplit", "split_terminator", "rsplit_terminator", "split_inclusive", "splitn", "rsplitn", "split_once", "rsplit_once"}
+
+
 def verbatim_lines(ctx, res, rule):
     """The listed lines are the source lines: in the list renderers no text-transforming operation is applied to strings
     (the only rewriting allowed is the tab expansion checked by R4 and the insertion of colour / marker / number strings)."""
@@ -267,6 +346,12 @@ def verbatim_lines(ctx, res, rule):
             if rty not in ("str", "std::string::String"):
                 continue
             n_str += 1
+            if n["name"] in LINE_SPLITTERS:
+                # one notion of "line" in the renderers: `lines()` (which also drops the '\r' of a CR LF break) - a pass that splits on
+                # '\n' alone keeps the '\r', and once a colour code follows it the later `lines()` cannot strip it any more
+                res.add(Finding(rule, fshort(b), "line-splitter:" + T.render(n)[-50:], "`%s` splits the listed text by another notion of line than `lines()`: on CR LF "
+                                "documents the coloured pretty form and the JSON form of the same item differ" % T.render(n)[-80:], loc=T.loc(n)))
+                continue
             if n["name"] in TEXT_TRANSFORMS or (n["name"] == "replace" and T.lit_value(n["args"][0]) != "\t"):
                 res.add(Finding(rule, fshort(b), "text-transform:" + T.render(n)[-60:], "`%s` rewrites listed text: the item would no longer show the source lines verbatim "
                                 "(and the JSON form could differ from the colour-stripped pretty form)" % T.render(n)[-90:], loc=T.loc(n)))
